@@ -23,7 +23,23 @@ def variants_from_items(F):
     return [(v["name"], [f["ty"] for f in v["fields"]]) for v in adt["variants"]]
 
 
+_SUM_CACHE = {}
+
+
 def summarise(F, role):
+    key = (id(F), role)
+    if key not in _SUM_CACHE:
+        try:
+            _SUM_CACHE[key] = ("ok", _summarise(F, role))
+        except Unanalysable as u:
+            _SUM_CACHE[key] = ("err", u)
+    st, v = _SUM_CACHE[key]
+    if st == "err":
+        raise v
+    return v
+
+
+def _summarise(F, role):
     path = (H.P_VER if role == "verifier" else H.P_PRV) + "flattened_constraints"
     fn = F.fn(path)
     I = H.new_interp(F)
@@ -69,6 +85,31 @@ def summarise(F, role):
         carried = I_.carried_vars(body, env)
         scal = {lid: I_.deref(env[lid]) for lid in carried if isinstance(I_.deref(env[lid]), Sc)}
         marks = {}
+
+        def field_scalars():
+            """scalar fields of local structs (a constant weight kept as `weights.constant`): path -> (holder, key, value)"""
+            out = {}
+
+            def visit(v, pth, d=0):
+                if d > 3 or not isinstance(v, Struct):
+                    return
+                for k_, x in v.fields.items():
+                    x = I_.deref(x) if not isinstance(x, (Struct, Sc)) else x
+                    if isinstance(x, Sc):
+                        out[f"{pth}.{k_}"] = (v, k_, x)
+                    elif isinstance(x, Struct):
+                        visit(x, f"{pth}.{k_}", d + 1)
+
+            names = {}
+            for n_ in FX.walk(body):
+                if n_["k"] == "Path" and n_["res"].get("k") == "Local":
+                    names[n_["res"]["id"]] = n_["res"].get("name")
+            for lid_, v_ in env.items():
+                if isinstance(v_, Struct) and not v_.path.endswith(("Verifier", "Prover")):
+                    visit(v_, names.get(lid_) or str(lid_))
+            return out
+
+        fmarks = {}
         for name, ftys in variants:
             payload = []
             if ftys and ftys[0] == "usize":
@@ -77,6 +118,7 @@ def summarise(F, role):
                 payload = [Opaque("phantom")]
             var = Enum("r1cs::linear_combination::Variable", name, payload)
             snap = I_.snapshot(env)
+            fs_before = field_scalars()
             I_.scatter = []
             try:
                 I_.bind(pat, Tup([var, elem.items[1]]), env)
@@ -87,6 +129,13 @@ def summarise(F, role):
                         raise Unanalysable("non-scalar scatter value")
                     delta = sp.expand(v.e - rec["old"])
                     effects.append({"variant": name, "kind": "scatter", "target": rec["target"], "root": rec["root"], "idx": rec["idx"], "delta": delta, "overwrite": delta.has(rec["old"]), "where": rec["where"]})
+                fs_after = field_scalars()
+                for pth, (holder0, key0, before) in fs_before.items():
+                    if pth in fs_after and isinstance(fs_after[pth][2], Sc):
+                        d = sp.expand(fs_after[pth][2].e - before.e)
+                        if d != 0:
+                            effects.append({"variant": name, "kind": "scalar", "target": pth, "root": pth, "idx": None, "delta": d, "overwrite": d.has(*before.e.free_symbols) if before.e.free_symbols else False, "where": FX.short(e.get("sp"))})
+                            fmarks[pth] = True
                 for lid, before in scal.items():
                     after = I_.deref(env[lid])
                     if not isinstance(after, Sc):
@@ -101,16 +150,35 @@ def summarise(F, role):
         # carried scalars written by some arm: advance symbolically so the outer loop sees a sum schema
         for lid in marks:
             env[lid] = Sc(I_.deref(env[lid]).e + sfun("FLATSUM:" + str(carried[lid]))(q))
+        now = field_scalars()
+        for pth in fmarks:
+            holder, key, cur = now[pth]
+            holder.fields[key] = Sc(cur.e + sfun("FLATSUM:" + pth)(q))
         I_.havoc_count += 1  # scatter effects are summarised, not applied: exempt from the loop-carried-state rule
         # mark scatter targets so that the returned tuple can be matched to its roles
         for ef in effects:
             if ef["kind"] == "scatter" and ef["root"] in env:
+                # the target may be a local vector or a vector field of a local struct (`weights.wL`)
+                holder, key = None, None
                 cur = I_.deref(env[ef["root"]])
-                if isinstance(cur, Vec) and not any(isinstance(x, str) for x in [getattr(cur, "flat_tag", None)]):
+                for part in ef["target"].split(".")[1:]:
+                    if isinstance(cur, Struct) and part in cur.fields:
+                        holder, key, cur = cur, part, I_.deref(cur.fields[part])
+                    elif isinstance(cur, Tup) and part.isdigit() and int(part) < len(cur.items):
+                        holder, key, cur = cur, int(part), I_.deref(cur.items[int(part)])
+                    else:
+                        cur = None
+                        break
+                if isinstance(cur, Vec) and not isinstance(getattr(cur, "flat_tag", None), str):
                     inits[ef["target"]] = cur
                     nv = Vec.atom("FLAT:" + ef["target"], cur.length())
                     nv.flat_tag = ef["target"]
-                    env[ef["root"]] = nv
+                    if holder is None:
+                        env[ef["root"]] = nv
+                    elif isinstance(holder, Struct):
+                        holder.fields[key] = nv
+                    else:
+                        holder.items[key] = nv
         return None
 
     I.hooks["loop"] = loop_hook
@@ -189,8 +257,7 @@ def check(ck, F, role, rule):
             ck.require(isinstance(ini, Vec) and _veq(ini, Vec.const(Sc(0), ln), why_), rule, f"{role}:init:{v}", f"the weight vector for {v} must start as {ln} zeros; it starts as {ini!r} {why_}", where)
         else:
             # scalar accumulator (wc): returned value must be exactly the sum of its per-constraint updates
-            pos = want.index(v)
-            got = ret.items[pos] if isinstance(ret, Tup) and len(ret.items) > pos else None
+            got = next((x for x in _walk_leaves(ret) if _leaf_role(S, x) == ROLE_OF[v]), None)
             K = isym("_k")
             fs = [a for a in (got.e.atoms(sp.Function) if isinstance(got, Sc) else []) if str(a.func).startswith("FLATSUM:")]
             okz = isinstance(got, Sc) and len(fs) >= 1 and eq(got.e, _mk(S["Q"], sfun(str(fs[0].func))(K), K))
@@ -198,17 +265,63 @@ def check(ck, F, role, rule):
     loops = [l for l in I.loop_log if l["fn"].endswith("flattened_constraints")]
     outer = [l for l in loops if eq(l["n"], S["Q"])]
     ck.require(len(outer) == 1 and eq(outer[0]["off"], 0) and len(loops) == 1, rule, f"{role}:all-constraints", f"the outer loop does not run over all constraints exactly once (loops seen: {[(str(l['n']), str(l['off'])) for l in loops]})", where)
-    # returned tuple order
-    items = ret.items if isinstance(ret, Tup) else []
-    tags = []
-    for it in items:
-        if isinstance(it, Vec):
-            tags.append(getattr(it, "flat_tag", None) or (str(it.segs[0].f(isym("_j"))) if it.segs else "?"))
-        elif isinstance(it, Sc):
-            tags.append(str(it.e))
-        else:
-            tags.append(repr(it))
-    exp_t = [by_variant[v][0]["target"] if v in by_variant and by_variant[v] else "?" for v in want]
-    okret = len(tags) == len(want) and all(e_ in t_ for e_, t_ in zip(exp_t, tags))
-    ck.require(okret, rule, f"{role}:return-order", f"returned tuple {tags} does not list the weights in the order {exp_t}", where)
+    # every weight is handed back exactly once.  (Which component the caller then uses for which role is decided
+    # downstream: the harness hands the caller role-labelled vectors in the shape this function really returns.)
+    leaves = return_roles(S)
+    got_roles = sorted(r_ for r_ in leaves if r_ is not None)
+    want_roles = sorted(ROLE_OF[v] for v in want)
+    ck.require(got_roles == want_roles and None not in leaves, rule, f"{role}:return-order", f"the returned value must carry each weight exactly once ({want_roles}); its components are {leaves}", where)
+    if isinstance(ret, Tup) and all(not isinstance(x, (Tup, Struct)) for x in ret.items):
+        ck.require(leaves == [ROLE_OF[v] for v in want], rule, f"{role}:return-order", f"returned tuple lists the weights as {leaves}, reference order {[ROLE_OF[v] for v in want]}", where)
     return S
+
+
+ROLE_OF = {"MultiplierLeft": "wL", "MultiplierRight": "wR", "MultiplierOutput": "wO", "Committed": "wV", "One": "wc"}
+
+
+def _leaf_role(S, v):
+    tgt_role = {}
+    for ef in S["effects"]:
+        if ef["variant"] in ROLE_OF:
+            tgt_role[ef["target"]] = ROLE_OF[ef["variant"]]
+    if isinstance(v, Vec):
+        return tgt_role.get(getattr(v, "flat_tag", None))
+    if isinstance(v, Sc):
+        fs = [a for a in v.e.atoms(sp.Function) if str(a.func).startswith("FLATSUM:")]
+        if fs:
+            return tgt_role.get(str(fs[0].func)[len("FLATSUM:"):])
+    return None
+
+
+def _walk_leaves(v):
+    if isinstance(v, Tup):
+        for x in v.items:
+            yield from _walk_leaves(x)
+    elif isinstance(v, Struct):
+        for k in v.fields:
+            yield from _walk_leaves(v.fields[k])
+    else:
+        yield v
+
+
+def return_roles(S):
+    """roles (wL, wR, wO, wV, wc / None) of the leaves of the returned value, in order"""
+    return [_leaf_role(S, x) for x in _walk_leaves(S["ret"])]
+
+
+def shaped_return(F, role, make):
+    """the value `flattened_constraints` returns, with every weight replaced by make(role_name): same nesting (tuple,
+    private struct, pair of struct and scalar, ..) as the analysed function really returns"""
+    S = summarise(F, role)
+
+    def build(v):
+        if isinstance(v, Tup):
+            return Tup([build(x) for x in v.items])
+        if isinstance(v, Struct):
+            return Struct(v.path, {k: build(x) for k, x in v.fields.items()})
+        r_ = _leaf_role(S, v)
+        if r_ is None:
+            raise Unanalysable(f"flattened_constraints returns a component that is none of the weights: {v!r}")
+        return make(r_)
+
+    return build(S["ret"])
